@@ -396,9 +396,14 @@ def shortcutOne (cols : List Col) (k : Nat) (x : NT) : List Col :=
       | none => cols
     | _ => cols
 
+/-- first occurrences, in order (`found_beginners` is a set; the beginners are handled independently) -/
+def dedupNT : List NT → List NT
+  | [] => []
+  | x :: xs => x :: (dedupNT xs).filter (fun y => !decide (y = x))
+
 def beginnersOf (col : Col) : List NT :=
-  (col.states.filterMap (fun s =>
-    if s.item.lhs.beginner then (s.item.rhs.head?.bind ESym.nt?) else none)).eraseDups
+  dedupNT (col.states.filterMap (fun s =>
+    if s.item.lhs.beginner then (s.item.rhs.head?.bind ESym.nt?) else none))
 
 def shortcut (cols : List Col) (k : Nat) : List Col :=
   (beginnersOf (colAt cols k)).foldl (fun cs x => shortcutOne cs k x) cols
@@ -530,16 +535,22 @@ def predDefault (G : Grammar) (cap : Nat) : Nat → NT → List (List ESym) := f
 
 /-! ### grammar classes -/
 
-/-- nonterminal-level nullability of the compiled grammar, `fuel` rounds of the usual fixpoint -/
-def nullableNTs (rules : List CRule) : Nat → List NT
-  | 0 => []
-  | f + 1 =>
-    let prev := nullableNTs rules f
-    (rules.filter (fun (r : CRule) => r.2.all (fun (s : ESym) => match s with
-      | .t (.lit (.text [])) => true
-      | .t (.lit (.bytes [])) => true
-      | .t _ => false
-      | .n x _ _ => prev.contains x))).map (·.1) |>.eraseDups
+def symNullable (nl : List NT) : ESym → Bool
+  | .t (.lit (.text [])) => true
+  | .t (.lit (.bytes [])) => true
+  | .t _ => false
+  | .n x _ _ => nl.contains x
+
+/-- one round of the nullability fixpoint -/
+def nullStep (rules : List CRule) (prev : List NT) : List NT :=
+  ((rules.filter (fun (r : CRule) => r.2.all (symNullable prev))).map (·.1)).eraseDups
+
+/-- nonterminal-level nullability of the compiled grammar (least fixpoint, at most `fuel` rounds) -/
+def nullableNTs (rules : List CRule) : Nat → List NT → List NT
+  | 0, acc => acc
+  | f + 1, acc =>
+    let nxt := nullStep rules acc
+    if nxt.length = acc.length then acc else nullableNTs rules f nxt
 
 /-- `x ⇒ … y …` with everything around `y` nullable: one step of a *same-span* derivation -/
 def unitEdges (rules : List CRule) (nl : List NT) : List (NT × NT) :=
@@ -547,29 +558,41 @@ def unitEdges (rules : List CRule) (nl : List NT) : List (NT × NT) :=
     (List.range r.2.length).filterMap (fun i =>
       match (r.2[i]? : Option ESym) with
       | some (.n y _ _) =>
-        let rest := r.2.take i ++ r.2.drop (i + 1)
-        if rest.all (fun (s : ESym) => match s with
-          | .t (.lit (.text [])) => true
-          | .t (.lit (.bytes [])) => true
-          | .t _ => false
-          | .n z _ _ => nl.contains z) then some (r.1, y) else none
+        if (r.2.take i ++ r.2.drop (i + 1)).all (symNullable nl) then some (r.1, y) else none
       | _ => none))
 
-/-- nonterminals reachable from `x` over `edges` in at most `fuel` steps (at least one step) -/
+/-- nonterminals reachable from `acc` over `edges` (at most `fuel` rounds) -/
 def reach (edges : List (NT × NT)) : Nat → List NT → List NT
   | 0, acc => acc
   | f + 1, acc =>
-    let nxt := (edges.filter (fun e => acc.contains e.1)).map (·.2)
-    reach edges f (acc ++ nxt).eraseDups
+    let nxt := (acc ++ (edges.filter (fun e => acc.contains e.1)).map (·.2)).eraseDups
+    if nxt.length = acc.length then acc else reach edges f nxt
 
-/-- **the divergence class**: some nonterminal derives itself over the same span
+/-- some node of the graph reaches itself -/
+def hasCycle (edges : List (NT × NT)) (fuel : Nat) : Bool :=
+  ((edges.map (·.1)).eraseDups).any (fun x =>
+    (reach edges fuel (((edges.filter (fun e => decide (e.1 = x))).map (·.2)).eraseDups)).contains x)
+
+/-- **the divergence class of complete parses**: some nonterminal derives itself over the same span
     (`("a"?)*`, `<a> ::= <a> | …`, `<x> ::= <y> <x> | ""` with `<y>` nullable): the forest is infinite -/
 def hasEpsCycle (rules : List CRule) : Bool :=
   let n := rules.length + 1
-  let nl := nullableNTs rules n
-  let edges := unitEdges rules nl
-  (rules.map (·.1)).eraseDups.any (fun x =>
-    (reach edges n ((edges.filter (fun e => decide (e.1 = x))).map (·.2))).contains x)
+  hasCycle (unitEdges rules (nullableNTs rules n [])) n
+
+/-- `x ⇒ α y …` with `α` nullable: `y` is a left corner of `x` -/
+def leftEdges (rules : List CRule) (nl : List NT) : List (NT × NT) :=
+  rules.flatMap (fun (r : CRule) =>
+    (List.range r.2.length).filterMap (fun i =>
+      match (r.2[i]? : Option ESym) with
+      | some (.n y _ _) => if (r.2.take i).all (symNullable nl) then some (r.1, y) else none
+      | _ => none))
+
+/-- **the divergence class of prefix (INCOMPLETE) parses**: left recursion, possibly hidden behind a
+    nullable prefix.  At the end of the input every state with children is completed as if it were
+    finished; with a left-recursive nonterminal the result is wrapped into itself again and again. -/
+def hasLeftCycle (rules : List CRule) : Bool :=
+  let n := rules.length + 1
+  hasCycle (leftEdges rules (nullableNTs rules n [])) n
 
 def NoEpsCycle (rules : List CRule) : Prop := hasEpsCycle rules = false
 
